@@ -6,10 +6,14 @@
     [rfc4791_comp] is the specification.  Hypotheses that appear below:
     - [times_ok f c]: no time range of the query is evaluated on a value go-ical
       cannot read (otherwise Match answers with an error, see C06_errors);
-    - [between_ok f c]: rrule-go's Between returned what its documentation says
-      (oracle data; re-checked by the oracle on every case);
-    - [kf_recurring_overlap f c = false]: the known finding [recurring_overlap]
-      (known_findings.json) does not apply. *)
+    - [rset_ok f c]: wherever the query puts a time range on a recurring component,
+      rrule-go's iterator yielded exactly the instances of the component, in
+      ascending order (oracle data; re-checked by the oracle on every case against
+      an instance list computed independently), and an instance list cut at a
+      horizon (rules that do not end) is cut where it cannot matter
+      (C06_recurring_later_instances).
+    The former known finding [recurring_overlap] is repaired (known_findings.json,
+    "fixed"): no theorem carries a selector any more. *)
 From GW Require Import Base CalMatch CalMatchProofs.
 
 (** ** Every filter tree x every component tree *)
@@ -22,28 +26,31 @@ Theorem C06_match : forall f c,
 Proof. exact match_rfc_nonrecurring. Qed.
 Print Assumptions C06_match.
 
-(** With recurring components, away from the listed finding. *)
-Theorem C06_match_except_recurring_overlap : forall f c,
-  times_ok f c = true -> between_ok f c = true -> kf_recurring_overlap f c = false ->
+(** With recurring components: the same, for every filter tree and every component
+    tree, given that rrule-go kept its contract. *)
+Theorem C06_match_recurring : forall f c,
+  times_ok f c = true -> rset_ok f c = true ->
   match_ f c = Ok (rfc4791_comp f c).
-Proof. exact match_rfc_except_recurring. Qed.
-Print Assumptions C06_match_except_recurring_overlap.
+Proof. exact match_rfc_recurring. Qed.
+Print Assumptions C06_match_recurring.
 
 (** Whenever Match returns a verdict at all — also on objects holding unreadable
     time values elsewhere — it is the RFC's. *)
-Theorem C06_match_verdict_except_recurring_overlap : forall f c b,
-  between_ok f c = true -> kf_recurring_overlap f c = false ->
+Theorem C06_match_verdict : forall f c b,
+  rset_ok f c = true ->
   match_ f c = Ok b -> b = rfc4791_comp f c.
 Proof. exact match_verdict_rfc. Qed.
-Print Assumptions C06_match_verdict_except_recurring_overlap.
+Print Assumptions C06_match_verdict.
 
-(** The finding is real: a daily one-hour event, a range inside its first instance. *)
-Theorem C06_recurring_overlap_refuted :
-  exists f c,
-    times_ok f c = true /\ between_ok f c = true /\ kf_recurring_overlap f c = true /\
-    match_ f c = Ok false /\ rfc4791_comp f c = true.
-Proof. exact recurring_overlap_refuted. Qed.
-Print Assumptions C06_recurring_overlap_refuted.
+(** The witness of the former finding (a daily one-hour event, a range inside its
+    first instance; match.go answered false): Match now answers true, as the RFC does. *)
+Theorem C06_recurring_overlap_repaired :
+  times_ok old_witness_filter old_witness_calendar = true /\
+  rset_ok old_witness_filter old_witness_calendar = true /\
+  match_ old_witness_filter old_witness_calendar = Ok true /\
+  rfc4791_comp old_witness_filter old_witness_calendar = true.
+Proof. exact recurring_overlap_repaired. Qed.
+Print Assumptions C06_recurring_overlap_repaired.
 
 (** ** Time ranges *)
 
@@ -61,15 +68,32 @@ Theorem C06_overlap_table : forall s e k, overlaps s e k = true <-> overlaps_P s
 Proof. exact overlaps_table. Qed.
 Print Assumptions C06_overlap_table.
 
-(** A recurring component: where Between kept its contract and the finding does not
-    apply, the answer is "some instance overlaps". *)
-Theorem C06_recurring_except_recurring_overlap : forall s e c tbl insts,
-  c_rec c = RSet tbl insts ->
-  lookup_tr s e tbl = Some (spec_between s e insts) ->
-  rec_disagree ((s, e), c) = false ->
+(** A recurring component (its DTSTART, DTEND, DURATION readable, rrule-go's iterator
+    on contract): the answer is "some instance overlaps", every instance having the
+    extent of the first — for all range bounds, each possibly absent. *)
+Theorem C06_recurring : forall s e c seq hz insts,
+  c_rec c = RSet seq hz insts -> comp_time_ok c = true -> rset_ok_at ((s, e), c) = true ->
   match_comp_time_range s e c = Ok (rec_spec s e c insts).
 Proof. exact recurring_time_range. Qed.
-Print Assumptions C06_recurring_except_recurring_overlap.
+Print Assumptions C06_recurring.
+
+(** matchEventTimeRange on the instance starting at [i] of an event in row [k] decides
+    the condition of that row shifted to [i] (all of Z). *)
+Theorem C06_instance_overlap : forall s e k i a b he,
+  kind_extent k = (a, b, he) ->
+  match_event_time_range s e i (i + (b - a)) he = overlaps s e (shift_kind k i).
+Proof. exact extent_overlap. Qed.
+Print Assumptions C06_instance_overlap.
+
+(** Rules that do not end: the oracle data lists the instances up to a horizon [h].
+    Where [horizon_covers] holds (part of [rset_ok]) the instances after [h],
+    whatever they are, do not change the RFC's answer. *)
+Theorem C06_recurring_later_instances : forall s e c insts h later,
+  (forall j, In j later -> (h < j)%Z) ->
+  horizon_covers s e c (Some h) insts = true ->
+  rec_spec s e c (insts ++ later) = rec_spec s e c insts.
+Proof. exact rec_spec_later_instances. Qed.
+Print Assumptions C06_recurring_later_instances.
 
 Theorem C06_recurring_meaning : forall s e c insts,
   rec_spec s e c insts = true <->
@@ -100,7 +124,7 @@ Print Assumptions C06_filter_selects.
 
 (** An error has a cause: a time value go-ical cannot read under a time range. *)
 Theorem C06_errors : forall f c code,
-  match_ f c = Err code -> times_ok f c && between_ok f c = false.
+  match_ f c = Err code -> times_ok f c && rset_ok f c = false.
 Proof. exact match_err_cause. Qed.
 Print Assumptions C06_errors.
 
@@ -116,6 +140,14 @@ Theorem C06_errors_event : forall s e c,
   match_comp_time_range s e c = Err 500.
 Proof. exact comp_time_range_event_err. Qed.
 Print Assumptions C06_errors_event.
+
+(** In general: a component whose rule set, DTSTART, DTEND or DURATION go-ical cannot
+    read (a recurring component needs them as well: every instance has the extent
+    of the first). *)
+Theorem C06_errors_comp : forall s e c,
+  comp_time_ok c = false -> match_comp_time_range s e c = Err 500.
+Proof. exact comp_time_range_unreadable. Qed.
+Print Assumptions C06_errors_comp.
 
 Theorem C06_errors_prop : forall s e p,
   p_time p = TBad -> match_prop_time_range s e p = Err 500.
@@ -165,14 +197,13 @@ Print Assumptions C06_spec_prop_filter.
 
 (** ** The oracle's verdict functions *)
 
-(** Agreement of the implementation with the model entails the specification,
-    outside the listed finding. *)
+(** Agreement of the implementation with the model entails the specification. *)
 Theorem C06_agree_implies_spec_ok : forall f o ob,
-  match_agrees f o ob = true -> match_kf f o = false -> match_spec_ok f o ob = true.
+  match_agrees f o ob = true -> match_spec_ok f o ob = true.
 Proof. exact match_agree_spec_ok. Qed.
 Print Assumptions C06_agree_implies_spec_ok.
 
 Theorem C06_filter_agree_implies_spec_ok : forall q os ob,
-  filter_agrees q os ob = true -> filter_kf q os = false -> filter_spec_ok q os ob = true.
+  filter_agrees q os ob = true -> filter_spec_ok q os ob = true.
 Proof. exact filter_agree_spec_ok. Qed.
 Print Assumptions C06_filter_agree_implies_spec_ok.
